@@ -638,30 +638,24 @@ fn c13_waiter_of_a_cancelled_task_is_not_left_blocked() {
 #[kani::stub(crate::common::ordered_work_steal::OrderedLocalQueue::pop, QStub::pop)]
 #[kani::stub(crate::common::ordered_work_steal::OrderedLocalQueue::is_empty, QStub::is_empty)]
 fn c13_cancel_then_drop_of_the_handle_keeps_the_task_cancelled() {
+    // (one task only: with a second queued task and its waiter the query needed more than 24 GB; that cancelling one task does not
+    // touch another one is decided by c13_cancel_{first,second}_queued_task)
     small_queues();
     CANCEL_TASKS.clear();
     RUNNING_TASKS.clear();
     unsafe { RAN = [0; 2] };
     let p = pool("p");
-    let v1: Option<usize> = kani::any();
     let id0 = p.submit_task(Some(String::from("t0")), |p| task0(p), kani::any(), kani::any()).expect("submit 0");
-    let id1 = p.submit_task(Some(String::from("t1")), |p| task1(p), v1, kani::any()).expect("submit 1");
     // what open_coroutine::JoinHandle::try_cancel(self) does: the cancel request, then the handle's Drop
     CoroutinePool::try_cancel_task(id0);
     p.clean_task_result(id0);
-    _ = p.try_run();
-    _ = p.try_run();
+    kani::assert(p.try_run().is_some(), "the worker meets the task");
     unsafe {
         kani::assert(RAN[0] == 0, "a task cancelled before it starts never runs (the handle was dropped after the cancel)");
-        kani::assert(RAN[1] == 1, "the other queued task runs exactly once");
     }
     kani::assert(!CANCEL_TASKS.contains(&id0), "the cancel request is consumed with the task it was made for");
     kani::assert(!p.no_waits.contains(&id0), "the dropped-handle mark is consumed with the task");
-    kani::assert(p.results.get(&id0).is_none(), "no result is stored for a task nobody can wait for");
-    let r1 = p.wait_task_result(id1, Duration::from_millis(5));
-    kani::assert(matches!(r1, Ok(Ok(x)) if x == v1), "the other task's waiter gets its result");
     kani::cover!(true, "reached");
-    core::mem::forget(r1);
     core::mem::forget(p);
 }
 
